@@ -111,14 +111,18 @@ func report(w *World, prop, tier string, seed int, t0 time.Time, gens []*Gen, tr
 	// generation errors make the run unusable (tool error) unless they only affect unclaimed functions
 	exit := 0
 	if len(genErrs) > 0 {
-		for _, e := range genErrs {
-			fmt.Println("gvc: generation error:", e)
+		for i, e := range genErrs {
+			if i >= 15 {
+				fmt.Printf("gvc: ... %d more generation errors\n", len(genErrs)-i)
+				break
+			}
+			fmt.Println("gvc: generation error:", truncate(strings.ReplaceAll(e, "\n", " "), 300))
 		}
 	}
 
 	// replay files + VIOLATION lines
 	os.MkdirAll(filepath.Join(verifRoot, "replay", prop), 0o755)
-	for _, v := range viols {
+	for vi, v := range viols {
 		rf := &ReplayFile{Property: prop, Obligation: v.key, Status: v.why}
 		suffix := " no-failing-input-found"
 		if v.res != nil {
@@ -134,7 +138,11 @@ func report(w *World, prop, tier string, seed int, t0 time.Time, gens []*Gen, tr
 		path := filepath.Join(verifRoot, "replay", prop, mangle(v.key)+".json")
 		data, _ := json.MarshalIndent(rf, "", " ")
 		os.WriteFile(path, data, 0o644)
-		fmt.Printf("VIOLATION property=%s replay=%s obligation=%s reason=%q%s\n", prop, path, v.key, v.why, suffix)
+		if vi < 12 {
+			fmt.Printf("VIOLATION property=%s replay=%s obligation=%s reason=%q%s\n", prop, path, v.key, v.why, suffix)
+		} else if vi == 12 {
+			fmt.Printf("gvc: ... %d further violations (replay files written under %s)\n", len(viols)-12, filepath.Join(verifRoot, "replay", prop))
+		}
 		exit = 1
 	}
 	for _, e := range genErrs {
